@@ -256,7 +256,9 @@ def run_unit(work, pid, uidx, unit, tier, base_seed, known_fps, replay=None):
                 ff = json.load(open(failf))
             except Exception:
                 ff = {"fingerprint": "unparsable", "msg": ""}
-            if res.violation is None:
+            if str(ff.get("fingerprint", "")).startswith("harness/"):
+                res.undecided = "unit %s shard %d: harness error %s: %s" % (unit["test"], shard, ff.get("fingerprint"), ff.get("msg", "")[:1500])
+            elif res.violation is None:
                 res.violation = (failf, ff.get("fingerprint", "?"), ff.get("msg", ""), out)
         else:
             tail = out[-3000:]
@@ -327,7 +329,28 @@ def check_property(pid, spec, tier, replay=None, keep=False):
         if replay:
             ff = json.load(open(replay))
             units = [u for u in units if u["test"] == ff.get("test")] or units
+        # seconds-long regression tier: every saved case of this property is executed first
+        if not replay:
+            import glob
+            for rp in sorted(glob.glob(os.path.join(VERIF, "replays", pid + "-*.json"))):
+                try:
+                    ff = json.load(open(rp))
+                except Exception:
+                    continue
+                for uidx, unit in enumerate(spec["units"]):
+                    if unit["test"] != ff.get("test") or tier not in unit:
+                        continue
+                    rr = run_unit(work, pid, 2000 + uidx, unit, tier, base_seed, known_fps, replay=rp)
+                    all_stats += rr.stats
+                    if rr.violation and violation is None:
+                        violation = (rp, rr.violation[1], rr.violation[2])
+                    elif rr.undecided:
+                        undecided.append(rr.undecided)
+                if violation:
+                    break
         for uidx, unit in enumerate(spec["units"]):
+            if violation:
+                break
             if unit not in units:
                 continue
             if tier not in unit:
